@@ -392,3 +392,91 @@ def gen_res_exhaustive(configs=((1, 2), (1, 3), (1, 4), (1, 5), (2, 3), (2, 4), 
             out.append(case(cid, 'res', {'rngseed': 1}, L))
             index[cid] = (k, n, seq)
     return out, index
+
+# ------------------------------------------------------------------ HLL count (C03): register vectors
+def hll_regs_from_hashes(b, hashes):
+    m = 1 << b
+    regs = [0] * m
+    for h in hashes:
+        j = h & (m - 1)
+        w = h >> b
+        rank = (64 - b + 1) if w == 0 else (64 - b) - (w.bit_length() - 1)   # 1-based position of the first set bit among 64-b bits
+        rank = (64 - w.bit_length()) + 1 - b
+        if rank > regs[j]:
+            regs[j] = rank
+    return regs
+
+def gen_hllc(rng, n, tag='n', bmax=12):
+    out = []
+    for c in range(n):
+        b = rng.choice([4, 4, 5, 6, 7, 8, 9, 9, 10, 11, 12, 13, 14][:max(1, bmax - 1)])
+        b = min(b, bmax)
+        m = 1 << b
+        cfg = {'hasher': 'sip'}
+        style = rng.random()
+        if style < 0.55:
+            # realistic: n distinct random hashes, n on a log grid across all three estimator regimes
+            nd = rng.choice([0, 1, 2, 3, 5, 8, int(m * rng.choice([0.05, 0.2, 0.5, 1, 2, 2.5, 3, 5, 8, 20, 50]))])
+            nd = min(nd, 40000)
+            regs = hll_regs_from_hashes(b, [rng.randrange(1 << 64) for _ in range(nd)])
+            cfg['distinct'] = nd
+        elif style < 0.7:
+            regs = [rng.randrange(256) for _ in range(m)]                      # arbitrary bytes
+        elif style < 0.78:
+            regs = [rng.choice([0, 255])] * m
+        elif style < 0.86:
+            regs = [0] * m
+            for _ in range(rng.randrange(1, 9)):
+                regs[rng.randrange(m)] = rng.randrange(1, 256)
+        elif style < 0.93:
+            v = rng.randrange(0, 70)
+            regs = [v] * m
+            for _ in range(rng.randrange(0, 4)):
+                regs[rng.randrange(m)] = 0
+        else:
+            regs = [min(255, int(rng.expovariate(0.5))) for _ in range(m)]
+        L = ['fromregs 0 %d %s' % (b, ' '.join(map(str, regs))), 'count 0', 'relerr 0']
+        out.append(case('%s%d' % (tag, c), 'hllc', cfg, L))
+    return out
+
+# ------------------------------------------------------------------ HLL serde (C20)
+def gen_hser(rng, n, tag='s'):
+    out = []
+    for c in range(n):
+        b = rng.choice([4, 4, 4, 5, 6, 8])
+        m = 1 << b
+        seed = rng.randrange(1 << 32)
+        L = ['new 0 %d %d' % (b, seed)]
+        for _ in range(rng.randrange(0, 12)):
+            L.append('addh 0 %d' % edge_hash(rng, b))
+        L.append('ser 0')
+        regs = hll_regs_from_hashes(b, [rng.randrange(1 << 64) for _ in range(rng.randrange(0, 40))])
+        style = rng.random()
+        fields = {'R': 'R %d %s' % (m, ' '.join(map(str, regs))), 'B': 'B %d' % b, 'H': 'H %d' % seed}
+        order = ['R', 'B', 'H']
+        if style < 0.3:
+            rng.shuffle(order)                                   # valid, permuted
+        elif style < 0.4:
+            order.remove(rng.choice(order))                      # a field dropped
+        elif style < 0.5:
+            order.insert(rng.randrange(4), rng.choice(order))    # a field duplicated
+        elif style < 0.58:
+            order.insert(rng.randrange(4), 'U'); fields['U'] = 'U'
+        elif style < 0.75:
+            bb = rng.choice([0, 3, 4, 18, 19, 64, 1 << 63, b + 1, b - 1 if b > 4 else 5])
+            fields['B'] = 'B %d' % bb                            # b varied independently of the length
+        elif style < 0.9:
+            ln = rng.choice([0, m - 1, m + 1, 2 * m, 1, m // 2])
+            fields['R'] = 'R %d %s' % (ln, ' '.join(str(rng.randrange(60)) for _ in range(ln)))
+        else:
+            bad = list(regs); bad[rng.randrange(m)] = rng.choice([256, 1000, (1 << 64) - 1])
+            fields['R'] = 'R %d %s' % (m, ' '.join(map(str, bad)))   # entry out of u8
+        L.append('de 1 ' + ' '.join(fields[k] for k in order))
+        L += ['regs 1', 'addh 1 %d' % edge_hash(rng, 4), 'regs 1', 'eq 1 1'] if rng.random() < 0.8 else []
+        if rng.random() < 0.3:
+            L += ['merge 0 1', 'regs 0']
+        out.append(case('%s%d' % (tag, c), 'hser', {}, L))
+    return out
+GEN.update({'hllc': gen_hllc, 'hser': gen_hser})
+QUICK.update({'hllc': 250, 'hser': 500})
+THOROUGH.update({'hllc': 3000, 'hser': 20000})
